@@ -262,6 +262,198 @@ async fn run_history(ctx: &mut Ctx, ty: &str, nsubs: usize, ops: &[(usize, usize
     }
 }
 
+/// One subscriber's connection starts failing writes (broken pipe, reset, zero-length
+/// write) without the socket having noticed anything on the read side: every other
+/// subscriber still gets every matching message exactly once.
+async fn faulty_subscriber(ctx: &mut Ctx, ty: &str, nsubs: usize, seed: u64, case: &Value) {
+    use crate::pipe::WriteFail;
+    let mut r = Rng::keyed(seed, &[11, 0xFA]);
+    let mut sock = Sock::new(ty, None);
+    let mut subs: Vec<Peer> = Vec::new();
+    let mut topics: Vec<Vec<u8>> = Vec::new();
+    for k in 0..nsubs {
+        // random identities: the publisher walks its subscribers in hash order
+        let id = r.bytes(6);
+        match Peer::attach(&sock, "SUB", Some(&id)).await {
+            Ok(p) => {
+                let t = r.pick(&[&b""[..], b"a", b"ab"]).to_vec();
+                let mut f = vec![1u8];
+                f.extend_from_slice(&t);
+                p.send(&[f]);
+                topics.push(t);
+                subs.push(p);
+            }
+            Err(e) => {
+                ctx.inconclusive(format!("C11 attach {k}: {e}"));
+                return;
+            }
+        }
+    }
+    let mut sink = Vec::new();
+    quiesce(ctx, &mut sock, &mut sink).await;
+    let bad = r.below(nsubs);
+    topics[bad] = Vec::new();
+    subs[bad].send(&[vec![1u8]]); // the faulty one matches everything
+    quiesce(ctx, &mut sock, &mut sink).await;
+    let kind = *r.pick(&[WriteFail::BrokenPipe, WriteFail::ConnectionReset, WriteFail::ConnectionReset, WriteFail::WriteZero]);
+    let kind_name = format!("{kind:?}");
+    subs[bad].conn.fail_writes_after(subs[bad].conn.tap_len() + r.below(3) * 7, kind);
+    let mut seen: Vec<usize> = subs.iter().map(|p| p.out_msgs().map(|m| m.len()).unwrap_or(0)).collect();
+    // large bodies: the failing connection's outgoing buffer passes its high-water mark
+    // within a few publishes, which is when the publisher looks at the write result
+    let big = r.chance(3, 4);
+    for round in 0..8u32 {
+        let f0: &[u8] = *r.pick(&[&b"a"[..], b"abc", b"b", b""]);
+        let mut msg: Frames = vec![f0.to_vec()];
+        let size = if big { *r.pick(&[50_000usize, 70_000, 140_000]) } else { r.below(40) };
+        msg.extend(rc::tagged(11, round, &[size]));
+        let res = sim::complete(sock.send(&msg)).await;
+        let mut delivered = Vec::new();
+        let mut missed = Vec::new();
+        for (i, p) in subs.iter().enumerate() {
+            if i == bad {
+                continue;
+            }
+            let msgs = match p.out_msgs() {
+                Ok(m) => m,
+                Err(e) => {
+                    ctx.violation_with(&format!("C11/tap-corrupted/{ty}"), e, case.clone());
+                    return;
+                }
+            };
+            let newm = &msgs[seen[i].min(msgs.len())..];
+            let want = model_matches(&[topics[i].clone()], f0);
+            ctx.count("delivery_decisions_beside_a_failing_subscriber");
+            if !want && !newm.is_empty() {
+                ctx.violation_with(&format!("C11/non-matching-message-delivered/{ty}"), format!("subscriber {i} ({:?})", topics[i]), case.clone());
+                return;
+            }
+            if want {
+                if newm.len() == 1 && newm[0] == msg {
+                    delivered.push(i);
+                } else if newm.is_empty() {
+                    missed.push(i);
+                } else {
+                    ctx.violation_with(&format!("C11/delivered-more-than-once/{ty}"), format!("subscriber {i}: {} copies", newm.len()), case.clone());
+                    return;
+                }
+            }
+            seen[i] = msgs.len();
+        }
+        let ok = matches!(res, Ok(Ok(())));
+        if !missed.is_empty() && (ok || !delivered.is_empty()) {
+            ctx.violation_with(
+                &format!("C11/matching-message-not-delivered/{ty}"),
+                format!(
+                    "publish #{round} of first frame {:?} with {nsubs} subscribers, subscriber {bad}'s connection failing writes with {kind_name}: healthy matching subscribers {missed:?} got nothing while {delivered:?} got it (send returned {})",
+                    String::from_utf8_lossy(f0),
+                    if ok { "Ok".to_string() } else { format!("{res:?}") }
+                ),
+                case.clone(),
+            );
+            return;
+        }
+        if !ok && delivered.is_empty() {
+            ctx.count("publishes_refused_as_a_whole");
+        }
+        ctx.count(&format!("publishes_beside_a_failing_subscriber/{kind_name}"));
+    }
+}
+
+/// A subscriber comes back on a new connection under the identity it used before (the old
+/// connection still open, or closed but not yet noticed): subscriptions are counted per
+/// connection, so the new one starts with none.
+async fn resubscriber(ctx: &mut Ctx, ty: &str, old_state: &str, case: &Value) {
+    use crate::pipe::EndKind;
+    let mut sock = Sock::new(ty, None);
+    let mut sink = Vec::new();
+    let other = match Peer::attach(&sock, "SUB", Some(b"other")).await {
+        Ok(p) => p,
+        Err(e) => {
+            ctx.inconclusive(format!("C11 attach: {e}"));
+            return;
+        }
+    };
+    other.send(&[b"\x01a".to_vec()]);
+    let old = match Peer::attach(&sock, "SUB", Some(b"same-id")).await {
+        Ok(p) => p,
+        Err(e) => {
+            ctx.inconclusive(format!("C11 attach: {e}"));
+            return;
+        }
+    };
+    old.send(&[b"\x01a".to_vec()]);
+    old.send(&[b"\x01b".to_vec()]);
+    quiesce(ctx, &mut sock, &mut sink).await;
+    match old_state {
+        "open" => {}
+        "closed-unnoticed" => old.conn.close_full(EndKind::Eof),
+        _ => {
+            old.conn.close_full(EndKind::Eof);
+            quiesce(ctx, &mut sock, &mut sink).await;
+        }
+    }
+    let new = match Peer::attach(&sock, "SUB", Some(b"same-id")).await {
+        Ok(p) => p,
+        Err(e) => {
+            ctx.inconclusive(format!("C11 re-attach: {e}"));
+            return;
+        }
+    };
+    new.send(&[b"\x01b".to_vec()]);
+    quiesce(ctx, &mut sock, &mut sink).await;
+    let mut set: Vec<Vec<u8>> = vec![b"b".to_vec()];
+    let mut seen = 0usize;
+    let mut seen_other = other.out_msgs().map(|m| m.len()).unwrap_or(0);
+    let steps: [(&str, Option<&[u8]>); 5] = [("publish", None), ("unsub-b", Some(b"\x00b")), ("publish", None), ("sub-a", Some(b"\x01a")), ("publish", None)];
+    let mut seq = 0u32;
+    for (name, feed) in steps {
+        if let Some(f) = feed {
+            new.send(&[f.to_vec()]);
+            if f[0] == 1 {
+                set.push(f[1..].to_vec());
+            } else if let Some(i) = set.iter().position(|t| t[..] == f[1..]) {
+                set.remove(i);
+            }
+            quiesce(ctx, &mut sock, &mut sink).await;
+            continue;
+        }
+        let _ = name;
+        for f0 in [&b"a1"[..], b"b1", b"c"] {
+            let mut msg: Frames = vec![f0.to_vec()];
+            msg.extend(rc::tagged(12, seq, &[]));
+            seq += 1;
+            let _ = sim::complete(sock.send(&msg)).await;
+            let msgs = new.out_msgs().unwrap_or_default();
+            let newm = msgs.len().saturating_sub(seen);
+            seen = msgs.len();
+            let want = model_matches(&set, f0) as usize;
+            ctx.count("delivery_decisions_after_reconnect");
+            if newm != want {
+                ctx.violation_with(
+                    &format!("C11/{}/{ty}", if newm > want { "non-matching-message-delivered" } else { "matching-message-not-delivered" }),
+                    format!(
+                        "a subscriber reconnected under its old identity (old connection: {old_state}) and on the new connection has subscriptions {:?}; publish of {:?}: {newm} copies, model says {want}",
+                        set.iter().map(|t| String::from_utf8_lossy(t).into_owned()).collect::<Vec<_>>(),
+                        String::from_utf8_lossy(f0)
+                    ),
+                    case.clone(),
+                );
+                return;
+            }
+            // the bystander is unaffected
+            let om = other.out_msgs().unwrap_or_default();
+            let want_o = f0.starts_with(b"a") as usize;
+            if om.len() - seen_other.min(om.len()) != want_o {
+                ctx.violation_with(&format!("C11/matching-message-not-delivered/{ty}"), format!("bystander subscribed to 'a' got {} copies of {:?}", om.len() - seen_other, String::from_utf8_lossy(f0)), case.clone());
+                return;
+            }
+            seen_other = om.len();
+        }
+    }
+    ctx.count(&format!("reconnects_under_same_identity/{old_state}"));
+}
+
 impl Prop for C11 {
     fn id(&self) -> &'static str {
         "C11"
@@ -274,6 +466,14 @@ impl Prop for C11 {
             // exhaustive histories for one subscriber, batched by the first two ops
             for a in 0..NOPS {
                 v.push(json!({"kind": "exh", "ty": ty, "first": a, "maxlen": maxlen}));
+            }
+            for n in 2..=7usize {
+                for k in 0..tier.pick(40, 400) {
+                    v.push(json!({"kind": "faulty", "ty": ty, "subs": n, "seed": mix(seed ^ 0xFA17 ^ (k as u64) << 4 ^ n as u64)}));
+                }
+            }
+            for old in ["open", "closed-unnoticed", "closed-noticed"] {
+                v.push(json!({"kind": "resub", "ty": ty, "old": old}));
             }
             for n in 1..=5usize {
                 for k in 0..tier.pick(120, 800) {
@@ -318,6 +518,16 @@ impl Prop for C11 {
                 ctx.sample("random_history", || one.clone());
                 sim::run(run_history(ctx, &ty, n, &ops, &one));
             }
+            "faulty" => {
+                ctx.eval(hash_str(&case.to_string()), true);
+                ctx.sample("faulty_subscriber", || case.clone());
+                sim::run(faulty_subscriber(ctx, &ty, u(case, "subs") as usize, u(case, "seed"), case));
+            }
+            "resub" => {
+                ctx.eval(hash_str(&case.to_string()), true);
+                ctx.sample("resubscriber", || case.clone());
+                sim::run(resubscriber(ctx, &ty, s(case, "old"), case));
+            }
             "history" => {
                 let ops: Vec<(usize, usize)> = case["ops"]
                     .as_array()
@@ -334,6 +544,10 @@ impl Prop for C11 {
         vec![
             ("exhaustive_histories", 2 * 7239),
             ("random_histories", 400),
+            ("delivery_decisions_beside_a_failing_subscriber", 2000),
+            ("publishes_beside_a_failing_subscriber/ConnectionReset", 200),
+            ("publishes_beside_a_failing_subscriber/BrokenPipe", 100),
+            ("delivery_decisions_after_reconnect", 50),
             ("delivery_decisions", 100_000),
             ("states_with_duplicate_subscriptions", 100),
             ("states_with_overlapping_prefixes", 100),
